@@ -208,6 +208,7 @@ pub fn scenarios(thorough: bool) -> Vec<Scenario> {
     v.push(pair_conflict_scenario("pair-conflict", 2, 3, if thorough { &[1, 8, 4] } else { &[1, 8] }, if thorough { 5 } else { 4 },
         &[Op::Resolve(1, 0, 0), Op::Resolve(1, 0, 1), Op::Commit(1, 1), Op::Travel(1, 0), Op::Travel(1, 2), Op::Reload(1)]));
     v.push(trio_scenario("trio", if thorough { 7 } else { 6 }));
+    v.push(many_commits_scenario("pair-many-commits", if thorough { 4 } else { 3 }, &[Op::Travel(0, 3), Op::Travel(0, 9), Op::Travel(1, 2), Op::Reload(0)]));
     for sc in v.iter_mut() {
         sc.key_opts.heads = true;
     }
